@@ -8,7 +8,9 @@
      hasher_ok mht   multihash.GetHasher(mht) succeeds
      hash mht bs     what that hasher's Sum returns after being fed bs (no law assumed — not even
                      for the identity "hash")
-     codecs code     the multicodec registry: code -> codec
+     encoders code   the multicodec registry's encoder table: code -> codec (its c_enc is used)
+     decoders code   the registry's decoder table (its c_dec is used); the two tables are separate
+                     maps in multicodec.Registry: a code may be bound for one direction only
    A codec is
      c_enc v         None = the encoder refuses the value; Some chunks = the sequence of Write calls
      c_dec bs        behaviour of the decoder on a stream delivering bs and then EOF:
@@ -20,8 +22,13 @@
 
    Storage is adversarial where the property needs it: what StorageReadOpener hands back is a
    [ropen] (an open error, or a reader = list of chunks then EOF or a sticky read error); what
-   StorageWriteOpener hands back is a [wbeh] (open error, a writer that fails once its capacity
-   would be exceeded and keeps failing, a committer that fails). *)
+   StorageWriteOpener hands back is a [wbeh] (open error; a writer that fails once its capacity
+   would be exceeded and keeps failing, and/or follows a per-Write schedule of transient failures
+   and short writes; a committer that fails).
+
+   [store] takes the flag [latch]: Store wraps the tee in a writer that remembers the first write
+   error and refuses all further writes (the repaired tree, fix 4c486a6); without it (pinned tree)
+   an encoder that ignores write errors makes Store commit a damaged block. *)
 Require Import IP.Base.Bytes IP.DM.Value IP.Codec.Cbor.
 Open Scope N_scope.
 
@@ -141,23 +148,55 @@ Definition honest_read (sk : skind) (st : storage) (l : link) : ropen :=
   | None => ROpenErr
   end.
 
-(* what the write opener returns *)
-Record wbeh := { w_open_err : bool; w_cap : option N; w_commit_err : bool }.
-Definition honest_w := {| w_open_err := false; w_cap := None; w_commit_err := false |}.
-
-(* the bytes a capacity-limited sticky writer accepts from a sequence of Write calls, and whether
-   it failed *)
-Fixpoint accept (cap : option N) (used : N) (chunks : list bytes) : bytes * bool :=
-  match chunks with
-  | [] => ([], false)
-  | c :: r =>
-    let fits := match cap with None => true | Some k => used + lenN c <=? k end in
-    if fits then let (p, f) := accept cap (used + lenN c) r in (c ++ p, f)
-    else ([], true)
-  end.
+(* what the write opener returns.  [w_sched]: what the storage writer does on its 1st, 2nd, ...
+   Write call (beyond the list: accept everything); [w_cap]: it fails once more than that many
+   bytes would have been accepted, and keeps failing *)
+Inductive wact := WOk | WFail | WShort (n : N).   (* WShort n: accept n bytes, return (n, nil) *)
+Record wbeh := { w_open_err : bool; w_cap : option N; w_sched : list wact; w_commit_err : bool }.
+Definition honest_w := {| w_open_err := false; w_cap := None; w_sched := []; w_commit_err := false |}.
 
 Definition prefixN (n : N) (l : bytes) : bytes :=
   match take n l with Some (p, _) => p | None => l end.
+
+(* The encoder's Write calls going through [latch?]( io.MultiWriter(storage writer, hasher) ).
+   Result: bytes the storage writer accepted, bytes the hasher saw (a chunk reaches the hasher only
+   when the writer took all of it), whether the encoder stopped on a write error, whether the latch
+   holds an error at the end.
+     latch    Store's sticky write-error latch is present
+     ignored  the encoder carries on after a failed Write (c_werr_ignored)
+     stuck    the capacity-limited writer has failed (it keeps failing)
+     latched  the latch holds an error: further writes are refused without reaching the writer *)
+Fixpoint write_all (latch ignored : bool) (cap : option N) (sched : list wact)
+  (used : N) (stuck latched : bool) (chunks : list bytes) : bytes * bytes * bool * bool :=
+  match chunks with
+  | [] => ([], [], false, latched)
+  | c :: r =>
+    if latch && latched then
+      (if ignored then write_all latch ignored cap sched used stuck latched r
+       else ([], [], true, latched))
+    else
+      let fits := match cap with None => true | Some k => used + lenN c <=? k end in
+      let stuck' := stuck || negb fits in
+      let act := if stuck' then WFail else match sched with a :: _ => a | [] => WOk end in
+      let sched' := tl sched in
+      let ok :=
+        let '(w, h, e, l) := write_all latch ignored cap sched' (used + lenN c) stuck' latched r in
+        (c ++ w, c ++ h, e, l) in
+      match act with
+      | WOk => ok
+      | WFail =>
+        if ignored then write_all latch ignored cap sched' used stuck' true r
+        else ([], [], true, true)
+      | WShort n =>
+        if lenN c <=? n then ok
+        else
+          let p := prefixN n c in
+          if ignored then
+            let '(w, h, e, l) := write_all latch ignored cap sched' (used + n) stuck' true r in
+            (p ++ w, h, e, l)
+          else (p, [], true, true)
+      end
+  end.
 
 (* outputs *)
 Record lout := { lo_status : status; lo_node : option dm; lo_raw : option bytes }.
@@ -174,7 +213,8 @@ Inductive vcheck := VOk | VMismatch | VPanic.
 Section LinkSystem.
   Variable hasher_ok : N -> bool.
   Variable hash : N -> bytes -> bytes.
-  Variable codecs : N -> option codec.
+  Variable encoders : N -> option codec.
+  Variable decoders : N -> option codec.
 
   (* hasher.Sum, BuildLink from the link's own prototype, compare binaries *)
   Definition verify (l : link) (seen : bytes) : vcheck :=
@@ -212,7 +252,7 @@ Section LinkSystem.
 
   (* LinkSystem.Fill *)
   Definition fill (trusted : bool) (ro : ropen) (l : link) : lout :=
-    match codecs (lp_codec (link_proto l)) with
+    match decoders (lp_codec (link_proto l)) with
     | None => lfail ESetup
     | Some c =>
       if negb (hasher_ok (lp_mhtype (link_proto l))) then lfail ESetup else
@@ -254,7 +294,7 @@ Section LinkSystem.
   (* LinkSystem.LoadPlusRaw: LoadRaw, then the decoder on the buffered block; on a decode error
      the (verified) block is still returned beside the error *)
   Definition load_plus_raw (ro : ropen) (l : link) : lout :=
-    match codecs (lp_codec (link_proto l)) with
+    match decoders (lp_codec (link_proto l)) with
     | None => lfail ESetup
     | Some c =>
       let r := load_raw ro l in
@@ -278,7 +318,7 @@ Section LinkSystem.
 
   (* LinkSystem.ComputeLink *)
   Definition compute (lp : lproto) (v : dm) : sout :=
-    match codecs (lp_codec lp) with
+    match encoders (lp_codec lp) with
     | None => sfail ESetup
     | Some c =>
       if negb (hasher_ok (lp_mhtype lp)) then sfail ESetup else
@@ -292,10 +332,12 @@ Section LinkSystem.
       end
     end.
 
-  (* LinkSystem.Store: io.MultiWriter(writer, hasher) — the hasher sees a chunk only when the
-     storage writer accepted it *)
-  Definition store (sk : skind) (w : wbeh) (st : storage) (lp : lproto) (v : dm) : sout * storage :=
-    match codecs (lp_codec lp) with
+  (* LinkSystem.Store: the encoder writes into [latch](io.MultiWriter(writer, hasher)); when the
+     encoder returned nil the latch's error (if the tree has the latch) is returned instead of
+     committing; then BuildLink over what the hasher saw, then the committer *)
+  Definition store (latch : bool) (sk : skind) (w : wbeh) (st : storage) (lp : lproto) (v : dm)
+    : sout * storage :=
+    match encoders (lp_codec lp) with
     | None => (sfail ESetup, st)
     | Some c =>
       if negb (hasher_ok (lp_mhtype lp)) then (sfail ESetup, st) else
@@ -303,13 +345,14 @@ Section LinkSystem.
       match c_enc c v with
       | None => (sfail EEncode, st)
       | Some chunks =>
-        let (accepted, failed) := accept (w_cap w) 0 chunks in
-        if failed && negb (c_werr_ignored c) then (sfail EIo, st) else
-        match build_link lp (hash (lp_mhtype lp) accepted) with
+        let '(written, hashed, enc_err, latched) :=
+          write_all latch (c_werr_ignored c) (w_cap w) (w_sched w) 0 false false chunks in
+        if enc_err || (latch && latched) then (sfail EIo, st) else
+        match build_link lp (hash (lp_mhtype lp) hashed) with
         | None => ({| so_status := SPanic; so_link := None |}, st)
         | Some l =>
           if w_commit_err w then ({| so_status := SErr ECommit; so_link := Some l |}, st)
-          else ({| so_status := SOk; so_link := Some l |}, put sk st (skey sk l) accepted)
+          else ({| so_status := SOk; so_link := Some l |}, put sk st (skey sk l) written)
         end
       end
     end.
@@ -325,7 +368,7 @@ Section LinkSystem.
 
   Definition step (sk : skind) (trusted : bool) (st : storage) (op : lop) : oout * storage :=
     match op with
-    | OStore lp v => let (s, st') := store sk honest_w st lp v in (OutS s, st')
+    | OStore lp v => let (s, st') := store true sk honest_w st lp v in (OutS s, st')
     | OCompute lp v => (OutS (compute lp v), st)
     | OLoad f l => (OutL (load_any f trusted (honest_read sk st l) l), st)
     end.
